@@ -62,7 +62,7 @@ CHECKS = {
         technique='Lean 4 proof over a hand-written executable model, tied to /repo on every run by differential correspondence (compiled Lean driver vs real code on generated inputs) and regenerated source tables; independent Python oracle searches for failing inputs',
         ref='§4 C10'),
     'C11': dict(
-        text='Model: the statement language of a function body (assignments, variables, literals, displays, configurable calls) with one new node per evaluated call. Theorems: each call creates exactly one node and touches nothing else; a variable used twice is one shared node; building the resulting DAG mirrors it object for object (C02 Mirror, exactly-once, distinct results). With a second semantics of the same text, the DIRECT CALL (a call expression invokes its callable on Python's binding of the evaluated arguments), the property itself for every program of the language: direct call and as_buildable run in lock-step (same reference; call object k = configuration object k with its call made), and conversely; fdl.build of that configuration returns whenever the direct call does, and every object it makes is the direct call's object at that program point up to the one-to-one renaming of the build's memo. Correspondence: the SOURCE TEXT of generated functions is read into the model language and executed; the DAG must equal the one the real as_buildable returns; oracle compares real builds with real direct calls and counts invocations.',
+        text='Model: the statement language of a function body (assignments, variables, literals, displays, configurable calls) with one new node per evaluated call. Theorems: each call creates exactly one node and touches nothing else; a variable used twice is one shared node; building the resulting DAG mirrors it object for object (C02 Mirror, exactly-once, distinct results). With a second semantics of the same text, the DIRECT CALL (a call expression invokes its callable on the Python binding of the evaluated arguments), the property itself for every program of the language: direct call and as_buildable run in lock-step (same reference; call object k = configuration object k with its call made), and conversely; fdl.build of that configuration returns whenever the direct call does, and every object it makes is the object of the direct call at that program point up to the one-to-one renaming of the memo of the build. Correspondence: the SOURCE TEXT of generated functions is read into the model language and executed; the DAG must equal the one the real as_buildable returns; oracle compares real builds with real direct calls and counts invocations.',
         note=TB + 'Partial: the AST rewrite itself, control flow, */** splats, exempt and calls of other auto_config functions are outside the modelled subset (oracle only; evidence reports how many programs were inside).',
         technique='Lean 4 proof over a hand-written executable model, tied to /repo on every run by differential correspondence (compiled Lean driver vs real code on generated inputs) and regenerated source tables; independent Python oracle searches for failing inputs',
         ref='§4 C11'),
